@@ -3,12 +3,13 @@
 (* weighting pattern): the weights are laid out per amino acid by codon     *)
 (* rank (TCAG order) from boundary patterns - 1:9 (exactly 10 %: excluded), *)
 (* 1:10, 11:89 (11 %: included), a zero-weight codon, 10:30:60, an amino    *)
-(* acid (or the stop signal) whose synonyms all have weight 0; code 27 has  *)
+(* acid (or the stop signal) whose synonyms all have weight 0, a table with *)
+(* no usage at all or with one used codon only; code 27 has                 *)
 (* no stop signal among its letters at all.  Emitted per state: the weights, *)
 (* and per amino-acid letter the eligible codon set (empty = unencodable).  *)
 EXTENDS CodonTables, Sequences, SequencesExt, Json, CSV, IOUtils
 CONSTANTS Ids07
-Pats == {"ones", "p1_9", "p1_10", "p11_89", "zero1", "p10_30_60", "deadF", "p9_1", "p21_179", "p101_899", "deadStop"}
+Pats == {"ones", "p1_9", "p1_10", "p11_89", "zero1", "p10_30_60", "deadF", "p9_1", "p21_179", "p101_899", "deadStop", "allzero", "onlyM"}
 CodonSeq == [k \in 1..64 |-> B4[((k - 1) \div 16) + 1] \o B4[(((k - 1) \div 4) % 4) + 1] \o B4[((k - 1) % 4) + 1]]
 Idx == [c \in Codons |-> CHOOSE k \in 1..64 : CodonSeq[k] = c]
 Rank(id, c) == Cardinality({d \in CodonsOf(id, Code[id][c]) : Idx[d] < Idx[c]})
@@ -25,6 +26,8 @@ PatW(p, id, c) ==
       [] p = "p10_30_60" -> IF r = 0 THEN 10 ELSE IF r = 1 THEN 30 ELSE 60
       [] p = "deadF"     -> IF Code[id][c] \in {"F", "W"} THEN 0 ELSE 3
       [] p = "deadStop"  -> IF Code[id][c] = "*" THEN 0 ELSE 2      \* a table re-weighted from a gene without its stop codon
+      [] p = "allzero"   -> 0                                       \* ... from text without a single complete codon
+      [] p = "onlyM"     -> IF c = "ATG" THEN 7 ELSE 0              \* ... from a start codon alone
 VARIABLES id, pat, w
 vars == <<id, pat, w>>
 Init == id = 0 /\ pat = "" /\ w = Zeros
